@@ -29,10 +29,11 @@ Theorem c06_module_outlines : translated_outline = true /\ outline_packets_ok = 
 Proof. repeat split; reflexivity. Qed.
 
 
-(* the one-pass scanner recognises exactly the positions of the placeholder regex:
-   a '?' followed by an even number of quote characters *)
-Theorem c06_scanner_is_regex : forall t, flags t = spec_flags t.
-Proof. exact flags_spec. Qed.
+(* whatever the text - quotes unbalanced, a dangling backslash - the scanner flags one position per character and only
+   question marks: interpolation never replaces anything else *)
+Theorem c06_only_question_marks : forall t, length (flags t) = length t /\
+  forall i, nth i (flags t) false = true -> nth i t 0 = QMARK.
+Proof. exact (fun t => conj (scanf_length t None false) (scanf_only_qmarks t None false)). Qed.
 
 (* a string literal built from any character sequence denotes exactly that sequence and ends
    exactly where the builder ended it *)
@@ -46,7 +47,9 @@ Example c06_literal_hostile :
 Proof. vm_compute. reflexivity. Qed.
 
 (* on the template grammar the recognised placeholders are exactly the holes: question marks inside
-   '...', "..." and `...` are not placeholders; prepare-time count = number of holes *)
+   '...', "..." and `...` are not placeholders - whatever else the quoted text holds: quote characters of the other
+   kinds ("it's ?"), escaped quotes and backslashes ('\' ?', '?\\'), doubled quotes (two adjacent segments) -;
+   prepare-time count = number of holes *)
 Theorem c06_placeholder_recognition : forall tpl, forallb seg_ok tpl = true ->
   flags (render tpl) = hole_flags tpl /\ count_params (render tpl) = N.of_nat (holes tpl).
 Proof. exact (fun tpl H => conj (placeholders_are_holes tpl H) (count_params_is_holes tpl H)). Qed.
@@ -58,9 +61,18 @@ Theorem c06_interpolate_spec : forall tpl vals, forallb seg_ok tpl = true ->
 Proof. exact interpolate_spec. Qed.
 
 Example c06_grammar_nonvacuous :
-  let tpl := [Plain [83; 32]; Hole; Quoted 39 [63]; Hole; Quoted 96 [63; 63]; Quoted 34 [63]] in
+  let tpl := [Plain [83; 32]; Hole; Quoted 39 [Ch 63]; Hole; Quoted 96 [Ch 63; Ch 63]; Quoted 34 [Ch 63]] in
   forallb seg_ok tpl = true /\ holes tpl = 2%nat /\
   interpolate (render tpl) [VStr [39; 63]; VNull] = [83; 32] ++ quote_string [39; 63] ++ [39; 63; 39] ++ [78; 85; 76; 76] ++ [96; 63; 63; 96; 34; 63; 34].
+Proof. vm_compute. repeat split; reflexivity. Qed.
+
+(* SELECT 'a?' , "it's" , ? , 'x\'?' 'y''?' `b\` : quote characters of another kind inside a string, an escaped quote, a
+   doubled quote, a backslash ending an identifier - one placeholder *)
+Example c06_grammar_mixed_quotes :
+  let tpl := [Quoted 39 [Ch 97; Ch 63]; Plain [44]; Quoted 34 [Ch 105; Ch 116; Ch 39; Ch 115]; Plain [44]; Hole; Plain [44];
+              Quoted 39 [Ch 120; Esc 39; Ch 63]; Quoted 39 [Ch 121]; Quoted 39 [Ch 63]; Quoted 96 [Ch 98; Ch 92]] in
+  forallb seg_ok tpl = true /\ count_params (render tpl) = 1 /\
+  interpolate (render tpl) [VNull] = fill tpl [[78; 85; 76; 76]].
 Proof. vm_compute. repeat split; reflexivity. Qed.
 
 (* binary parameter values: what a client encodes is what the server reads, for every list of
